@@ -276,22 +276,25 @@ Inductive shift_ev := EvNone | EvDel (n : Z) | EvIns (n : Z).
 
 Definition site_delete_host_assert : nat := 651.   (* hostrange_delete_host: assert(n >= hr->lo && n <= hr->hi) *)
 
+(* the non-singlehost branch of hostlist_delete_nth: hostrange_delete_host + insert / delete of array slots *)
+Definition delete_in_range (r : hrange) (num : N) (rest : hostlist) (i : Z) : outcome (hostlist * shift_ev) :=
+  if (GenHL.NDEBUG =? 0) && ((num <? hr_lo r) || (hr_hi r <? num)) then Abort site_delete_host_assert
+  else if num =? hr_lo r then
+         let r' := with_lo r (add64 (hr_lo r) 1) in
+         if hr_empty r' then Ok (rest, EvDel i) else Ok (r' :: rest, EvNone)
+  else if num =? hr_hi r then
+         let r' := with_hi r (sub64 (hr_hi r) 1) in
+         if hr_empty r' then Ok (rest, EvDel i) else Ok (r' :: rest, EvNone)
+  else Ok (with_hi r (sub64 num 1) :: with_lo r (add64 num 1) :: rest, EvIns (i + 1)).
+
 Fixpoint delete_loop (h : hostlist) (n cnt : Z) (i : Z) : outcome (hostlist * shift_ev) :=
   match h with
   | [] => Ok ([], EvNone)
   | r :: rest =>
     let nir := int_of_ulong (hr_count r) in
     if (n <=? nir - 1 + cnt)%Z then
-      let num := add64 (hr_lo r) (wrap64 (n - cnt)) in
       if hr_single r then Ok (rest, EvDel i)
-      else if (GenHL.NDEBUG =? 0) && ((num <? hr_lo r) || (hr_hi r <? num)) then Abort site_delete_host_assert
-      else if num =? hr_lo r then
-             let r' := with_lo r (add64 (hr_lo r) 1) in
-             if hr_empty r' then Ok (rest, EvDel i) else Ok (r' :: rest, EvNone)
-      else if num =? hr_hi r then
-             let r' := with_hi r (sub64 (hr_hi r) 1) in
-             if hr_empty r' then Ok (rest, EvDel i) else Ok (r' :: rest, EvNone)
-      else Ok (with_hi r (sub64 num 1) :: with_lo r (add64 num 1) :: rest, EvIns (i + 1))
+      else delete_in_range r (add64 (hr_lo r) (wrap64 (n - cnt))) rest i
     else bind (delete_loop rest n (to_int (cnt + nir)) (i + 1)) (fun p => Ok (r :: fst p, snd p))
   end.
 
